@@ -277,7 +277,7 @@ func (e *kvElection) handleWatchEvent(ctx context.Context, entry Entry) {
 		wg.Add(1)
 		go func() {
 			defer wg.Done()
-			if err := e.attemptAcquire(); err != nil {
+			if err := e.attemptAcquire(ctx); err != nil {
 				// Takeover failed - stay as follower
 				log.Debug("priority_takeover_failed",
 					append(e.logWithContext(ctx),
